@@ -133,6 +133,26 @@ def handle (op real : String) : Verdict := Id.run do
   let r2 := Parser.classify (lexOf stmt2) (4 * stmt2.length + 16)
   let m2 := if r2.oof then "oof" else if r2.idem then (if r2.err then "1e" else "1") else (if r2.err then "0e" else "0")
   if m2 != realUpd then return { kind := "diff", sig, key := "verdict-update", detail := s!"verdict {m2}" }
+  -- the term inside a WHERE clause (`UpdateW.render`) and inside the second child of a batch (`renderBatch`)
+  let verdictOf (toks : List Tok) : String :=
+    let r := Parser.classify (lexOf toks) (4 * toks.length + 16)
+    if r.oof then "oof" else if r.idem then (if r.err then "1e" else "1") else (if r.err then "0e" else "0")
+  let (ksOpt, tbl) : Option Ident × Ident := match table with
+    | [a] => (none, a.id)
+    | [a, _, b] => (some a.id, b.id)
+    | _ => (none, { text := [116] })
+  let rels : List Rel := [.cmp { text := [107] } Gen.Lex.tkEqual tm, .inList { text := [106] } (.cons .int (.cons tm .nil))]
+  let uw : UpdateW := { ks := ksOpt, table := tbl, setKw := { text := [83, 69, 84] }, ops := .cons { text := [99] } .bindQ .nil, rels, tail := [] }
+  let realWhr := field "whr="
+  if realWhr.startsWith "1" && tm.nonIdem then
+    return { kind := "spec", sig, key := "C06:unsound-term", detail := s!"UPDATE … WHERE <a term holding a now() / uuid() call> was classified idempotent: {op} -> {real}" }
+  if verdictOf uw.render != realWhr then return { kind := "diff", sig, key := "verdict-where", detail := s!"verdict {verdictOf uw.render}" }
+  let child (v : Term) (tail : List Tok) : Insert := { ks := ksOpt, table := tbl, cols := [{ text := [99] }], valuesKw := { text := [86, 65, 76, 85, 69, 83] }, vals := .cons v .nil, tail }
+  let batch := renderBatch [(child .int [k Gen.Lex.tkUsing, idt { text := [84, 84, 76] }, k Gen.Lex.tkInteger], true), (child tm [], false)] []
+  let realBat := field "bat="
+  if realBat.startsWith "1" && tm.nonIdem then
+    return { kind := "spec", sig, key := "C06:unsound-term", detail := s!"a batch whose second child inserts a term holding a now() / uuid() call was classified idempotent: {op} -> {real}" }
+  if verdictOf batch != realBat then return { kind := "diff", sig, key := "verdict-batch", detail := s!"verdict {verdictOf batch}" }
   return { kind := "ok", sig }
 
 end CqlVerif.Drv.AstStream
